@@ -311,13 +311,18 @@ theorem feq_typeOf {a b : Term} (ha : Simple a) (hb : Simple b) : (feq a b).type
 
 /-! ### `compile_app1` / `compile_app2` at the type level -/
 
-theorem compileApp1_ty (op : UnaryOp) {x : Term} (hs : Simple x) : resTy (compileApp1 op x) = ctApp1 op x.typeOf := by
-  cases op <;> cases hx : x.typeOf <;>
+theorem compileApp1_ty (op : UnaryOp) (hop : op ≠ .isEmpty) {x : Term} (hs : Simple x) :
+    resTy (compileApp1 op x) = ctApp1 op x.typeOf := by
+  cases op <;> (try (exact absurd rfl hop)) <;> cases hx : x.typeOf <;>
     simp [compileApp1, ctApp1, hx, resTy, someOf, Term.typeOf, ifFalse_typeOf, fnot_typeOf hs.noNot, bvneg_typeOf hs]
 
-theorem compileApp2_ty (op : BinaryOp) {x1 x2 : Term} (h1 : Simple x1) (h2 : Simple x2) :
+theorem compileApp2_ty (op : BinaryOp) (hop : op ≠ .contains ∧ op ≠ .containsAll ∧ op ≠ .containsAny)
+    {x1 x2 : Term} (h1 : Simple x1) (h2 : Simple x2) :
     resTy (compileApp2 op x1 x2) = ctApp2 op x1.typeOf x2.typeOf := by
   cases op
+  case contains => exact absurd rfl hop.1
+  case containsAll => exact absurd rfl hop.2.1
+  case containsAny => exact absurd rfl hop.2.2
   case eq =>
     simp only [compileApp2, ctApp2]
     cases hr : reducibleEq x1.typeOf x2.typeOf with
@@ -561,7 +566,7 @@ variable (req : Request) (es : Entities) (senv : SlotEnv) (etys : List (EntityTy
 variable (hctx : ctxT.typeOf.isRecordType = true → CtxOK req.context ctxT)
 include hctx
 
-theorem unary_ty {op : UnaryOp} {a : Expr} (hfa : SFrag2 a)
+theorem unary_ty {op : UnaryOp} (hop : op ≠ .isEmpty) {a : Expr} (hfa : SFrag2 a)
     (ih : resTy (compile (litEnv2 req etys ctxT) a) = ctype req es senv (litEnv2 req etys ctxT) a) :
     resTy (compile (litEnv2 req etys ctxT) (.unaryApp op a)) = ctype req es senv (litEnv2 req etys ctxT) (.unaryApp op a) := by
   simp only [compile, ctype]
@@ -571,12 +576,12 @@ theorem unary_ty {op : UnaryOp} {a : Expr} (hfa : SFrag2 a)
   | ok t1 =>
     obtain ⟨hsh, hs, _, _⟩ := (compile_rel2 req es senv etys ctxT hctx hfa t1 h1).opnd
     simp only [resTy]
-    rw [← optionGet_typeOf, ← compileApp1_ty op hs]
+    rw [← optionGet_typeOf, ← compileApp1_ty op hop hs]
     cases compileApp1 op (optionGet t1) with
     | error e => simp [resTy, tyMap]
     | ok r => simp [resTy, tyMap, ifSome_typeOf hsh]
 
-theorem binary_ty {op : BinaryOp} {a b : Expr} (hfa : SFrag2 a) (hfb : SFrag2 b)
+theorem binary_ty {op : BinaryOp} (hop : op ≠ .contains ∧ op ≠ .containsAll ∧ op ≠ .containsAny) {a b : Expr} (hfa : SFrag2 a) (hfb : SFrag2 b)
     (iha : resTy (compile (litEnv2 req etys ctxT) a) = ctype req es senv (litEnv2 req etys ctxT) a)
     (ihb : resTy (compile (litEnv2 req etys ctxT) b) = ctype req es senv (litEnv2 req etys ctxT) b) :
     resTy (compile (litEnv2 req etys ctxT) (.binaryApp op a b)) = ctype req es senv (litEnv2 req etys ctxT) (.binaryApp op a b) := by
@@ -591,7 +596,7 @@ theorem binary_ty {op : BinaryOp} {a b : Expr} (hfa : SFrag2 a) (hfb : SFrag2 b)
       obtain ⟨hsh1, hs1, _, _⟩ := (compile_rel2 req es senv etys ctxT hctx hfa t1 h1).opnd
       obtain ⟨hsh2, hs2, _, _⟩ := (compile_rel2 req es senv etys ctxT hctx hfb t2 h2).opnd
       simp only [resTy]
-      rw [← optionGet_typeOf, ← optionGet_typeOf, ← compileApp2_ty op hs1 hs2]
+      rw [← optionGet_typeOf, ← optionGet_typeOf, ← compileApp2_ty op hop hs1 hs2]
       cases compileApp2 op (optionGet t1) (optionGet t2) with
       | error e => simp [resTy, tyMap]
       | ok r => simp [resTy, tyMap, ifSome_typeOf hsh1, ifSome_typeOf hsh2, optTy_idem]
@@ -718,14 +723,14 @@ theorem ctype_spec {e : Expr} (hf : SFrag2 e) :
         simp [resTy, hg, Term.typeOf]
       · rw [(hcomp _ (.error .typeError)).2.2]
         simp [resTy, hg, hty]
-  | not h ih => exact unary_ty req es senv etys ctxT hctx h ih
-  | neg h ih => exact unary_ty req es senv etys ctxT hctx h ih
-  | eq h1 h2 iha ihb => exact binary_ty req es senv etys ctxT hctx h1 h2 iha ihb
-  | less h1 h2 iha ihb => exact binary_ty req es senv etys ctxT hctx h1 h2 iha ihb
-  | lessEq h1 h2 iha ihb => exact binary_ty req es senv etys ctxT hctx h1 h2 iha ihb
-  | add h1 h2 iha ihb => exact binary_ty req es senv etys ctxT hctx h1 h2 iha ihb
-  | sub h1 h2 iha ihb => exact binary_ty req es senv etys ctxT hctx h1 h2 iha ihb
-  | mul h1 h2 iha ihb => exact binary_ty req es senv etys ctxT hctx h1 h2 iha ihb
+  | not h ih => exact unary_ty req es senv etys ctxT hctx (by decide) h ih
+  | neg h ih => exact unary_ty req es senv etys ctxT hctx (by decide) h ih
+  | eq h1 h2 iha ihb => exact binary_ty req es senv etys ctxT hctx (by decide) h1 h2 iha ihb
+  | less h1 h2 iha ihb => exact binary_ty req es senv etys ctxT hctx (by decide) h1 h2 iha ihb
+  | lessEq h1 h2 iha ihb => exact binary_ty req es senv etys ctxT hctx (by decide) h1 h2 iha ihb
+  | add h1 h2 iha ihb => exact binary_ty req es senv etys ctxT hctx (by decide) h1 h2 iha ihb
+  | sub h1 h2 iha ihb => exact binary_ty req es senv etys ctxT hctx (by decide) h1 h2 iha ihb
+  | mul h1 h2 iha ihb => exact binary_ty req es senv etys ctxT hctx (by decide) h1 h2 iha ihb
   | getAttr attr h ih => exact getAttr_ty req es senv etys ctxT hctx h ih
   | hasAttr attr h ih => exact hasAttr_ty req es senv etys ctxT hctx h ih
   | like p h ih => exact like_ty req es senv etys ctxT hctx h ih
